@@ -4,7 +4,7 @@ from threading import Lock
 import logging
 from concurrent.futures import Future
 
-from .base import chain_cancel, weak_callback
+from .base import chain_cancel, weak_callback, notify_cancel
 from ..common import copy_future_exception, try_set_result
 from .check import ensure_futures
 from ..logwrap import LogWrapper
@@ -22,6 +22,7 @@ class BoolOperation(object):
         self.done = False
         self.lock = Lock()
         self.out = Future()
+        self.out.add_done_callback(notify_cancel)
 
         for f in fs:
             chain_cancel(self.out, f)
